@@ -658,6 +658,7 @@ func (g *progGen) body(prefix string, nmw int, depth int) []*Stmt {
 						if prev.Reuse != nil {
 							s.Reuse = prev.Reuse
 						}
+						hs = s.Hs
 					}
 				}
 			}
